@@ -182,6 +182,19 @@ def gen_list(t, flavour=None, min_lines=3, max_lines=40):
         # make some base words frequent enough for multi-word detection
         w = t.choice(WORDS)
         pws += [w] * t.between(5, 7)
+    if not flavour.get("large") and t.chance(1, 8):
+        # a compound the trainer keeps whole (seen often) although both halves are among the most common words of their
+        # lengths, each length with six different counts: a scorer that learns only the more common strings splits it
+        w1, w2 = t.sample([w for w in WORDS if len(w) >= 4], 2)
+        for w in (w1, w2):
+            pws += [w] * 10
+            for c in (1, 2, 3, 4, 5):
+                filler = "".join("bcdfghjklmnprstvz"[t.draw(17)] if i % 2 == 0 else "aeiou"[t.draw(5)] for i in range(len(w)))
+                pws += [filler] * c
+        whole = w1 + w2
+        pws += [whole + "12"] * 6 + [whole + t.choice(["2015", "1999", "2008"])] * 3 + [whole + t.choice(["#1", "<3", ";p"])] * 2
+        pws += [whole.capitalize() + "12!"] * 2
+        pws = [p for p in pws if len(p) <= 20 and representable(p, enc)]
     if flavour.get("long"):
         # passwords of exactly the maximum trained length (21), one below and one above
         for target in t.sample([20, 21, 21, 22], 2):
